@@ -415,16 +415,61 @@ theorem FreshNode.no_side {c : Cell R} {new : Nat} (h : FreshNode c new) (g z : 
 
 theorem getEdge_eq (c : Cell R) (a b : Nat) : getEdge c a b = EdgeSet.find? c.edges (Edge.keyOf a b) := rfl
 
-/-- **one step of the first walk** (`insertion_success` is true) -/
-theorem walk1_step {fn : Fn R} {start : Edge} {old new k : Nat} {F N : Nat → Nat} {c0 c : Cell R} {j fuel : Nat}
+/-- what `replace_node` appends to its list of created edges in step `m`: the entry stored under `{new, N m}`, which
+    lists exactly the faces `Q m` -/
+def CreOK (new : Nat) (N : Nat → Nat) (Q : Nat → Nat → Prop) (m : Nat) (y : Edge) : Prop :=
+  y.key = Edge.keyOf new (N m) ∧ y.n1 ≤ y.n2 ∧ WfFaces y ∧ ∀ g, y.hasFace g = true ↔ Q m g
+
+/-- the (deleted, created) edge lists of `replace_node` from step `j` on: every edge `{old, N m}` is in the deleted
+    list, every created edge is the entry `{new, N m}` of some step -/
+def WalkLists (old new k : Nat) (N : Nat → Nat) (Q : Nat → Nat → Prop) (j : Nat) (del cre del' cre' : List Edge) : Prop :=
+  ∃ dl cr, del' = del ++ dl ∧ cre' = cre ++ cr ∧
+    (∀ m, j ≤ m → m < k → ∃ x ∈ dl, x.key = Edge.keyOf old (N m)) ∧
+    (∀ y ∈ cr, ∃ m, j ≤ m ∧ m < k ∧ CreOK new N Q m y)
+
+theorem Pj_just {L : List (Option Tri)} {old new k : Nat} {F N : Nat → Nat} (h : FanF L old k F N) (hon : old ≠ new)
+    (P0 Q : Nat → Nat → Prop) {j : Nat} (hj : j < k) (g : Nat) :
+    Pj old new N P0 Q (j + 1) g (Edge.keyOf new (N j)) ↔ Q j g := by
+  rw [Pj_succ h hon _ _ hj g _, if_pos rfl]
+  exact ⟨fun hh => hh.2, fun hh => ⟨h.KK' hon hj, hh⟩⟩
+
+theorem WalkLists.step {old new k : Nat} {N : Nat → Nat} {Q : Nat → Nat → Prop} {j : Nat} {del cre del' cre' : List Edge}
+    {e stored : Edge} (he : e.key = Edge.keyOf old (N j)) (hs : CreOK new N Q j stored) (hj : j < k)
+    (h : WalkLists old new k N Q (j + 1) (del ++ [e]) (cre ++ [stored]) del' cre') :
+    WalkLists old new k N Q j del cre del' cre' := by
+  obtain ⟨dl, cr, h1, h2, h3, h4⟩ := h
+  refine ⟨e :: dl, stored :: cr, by rw [h1]; simp, by rw [h2]; simp, fun m hm1 hm2 => ?_, fun y hy => ?_⟩
+  · by_cases hmj : m = j
+    · subst hmj; exact ⟨e, List.mem_cons_self, he⟩
+    · obtain ⟨x, hx, hk⟩ := h3 m (by omega) hm2
+      exact ⟨x, List.mem_cons_of_mem _ hx, hk⟩
+  · rcases List.mem_cons.1 hy with rfl | hy
+    · exact ⟨j, Nat.le_refl _, hj, hs⟩
+    · obtain ⟨m, a, b, c⟩ := h4 y hy
+      exact ⟨m, by omega, b, c⟩
+
+theorem WalkLists.last {old new k : Nat} {N : Nat → Nat} {Q : Nat → Nat → Prop} {j : Nat} {del cre : List Edge}
+    {e stored : Edge} (he : e.key = Edge.keyOf old (N j)) (hs : CreOK new N Q j stored) (hj : j + 1 = k) :
+    WalkLists old new k N Q j del cre (del ++ [e]) (cre ++ [stored]) := by
+  refine ⟨[e], [stored], rfl, rfl, fun m hm1 hm2 => ?_, fun y hy => ?_⟩
+  · have : m = j := by omega
+    subst this; exact ⟨e, List.mem_singleton.2 rfl, he⟩
+  · rw [List.mem_singleton] at hy; subst hy
+    exact ⟨j, Nat.le_refl _, by omega, hs⟩
+
+/-- **one step of the first walk** (`insertion_success` is true), with the edges appended to the two lists -/
+theorem walk1_step' {fn : Fn R} {start : Edge} {old new k : Nat} {F N : Nat → Nat} {c0 c : Cell R} {j fuel : Nat}
     (hfan : FanF (slots c0) old k F N) (hon : old ≠ new) (hfresh : FreshNode c0 new)
     (hW : WalkState old new F N (fun m g => SideK (slots c0) g (Edge.keyOf old (N m))) c0 c j) (hj : j < k) {del cre : List Edge} {r : Cell R × List Edge × List Edge}
     (h : replaceNode.loop fn start old new (fuel + 1) c (EdgeSet.find? c.edges (Edge.keyOf old (N j))) (F j) del cre
       = .ok r) :
-    (j + 1 = k ∧ WalkState old new F N (fun m g => SideK (slots c0) g (Edge.keyOf old (N m))) c0 r.1 k) ∨
-    (j + 1 < k ∧ ∃ c2 del' cre', WalkState old new F N (fun m g => SideK (slots c0) g (Edge.keyOf old (N m))) c0 c2 (j + 1) ∧
+    ∃ e stored, e.key = Edge.keyOf old (N j) ∧
+      CreOK new N (fun m g => SideK (slots c0) g (Edge.keyOf old (N m))) j stored ∧
+    ((j + 1 = k ∧ WalkState old new F N (fun m g => SideK (slots c0) g (Edge.keyOf old (N m))) c0 r.1 k ∧
+        r.2 = (del ++ [e], cre ++ [stored])) ∨
+    (j + 1 < k ∧ ∃ c2, WalkState old new F N (fun m g => SideK (slots c0) g (Edge.keyOf old (N m))) c0 c2 (j + 1) ∧
       replaceNode.loop fn start old new fuel c2 (EdgeSet.find? c2.edges (Edge.keyOf old (N (j + 1)))) (F (j + 1))
-        del' cre' = .ok r) := by
+        (del ++ [e]) (cre ++ [stored]) = .ok r)) := by
   have hk2 := hfan.two_le (by omega)
   cases hcur : EdgeSet.find? c.edges (Edge.keyOf old (N j)) with
   | none => rw [hcur] at h; unfold replaceNode.loop at h; cases h
@@ -537,6 +582,12 @@ theorem walk1_step {fn : Fn R} {start : Edge} {old new k : Nat} {F N : Nat → N
     · cases hno
     cases ho'
     rw [getEdge_eq] at hrest
+    have hst2 : EdgeSet.find? c2.edges (Edge.keyOf new (N j)) = some (renEdge e old new) := by
+      rw [hE2, hfind _ (by rw [← rk]; exact hkk), if_pos rk.symm]
+    have hcre : CreOK new N (fun m g => SideK (slots c0) g (Edge.keyOf old (N m))) j (renEdge e old new) := by
+      obtain ⟨a1, a2, a3, a4⟩ := hW2.idx.of_find hst2
+      exact ⟨a1, a2, a3, fun g => (a4 g).trans (Pj_just hfan hon _ _ hj g)⟩
+    refine ⟨e, renEdge e old new, ek, hcre, ?_⟩
     by_cases hlast : j + 1 = k
     · left
       refine ⟨hlast, ?_⟩
@@ -546,7 +597,7 @@ theorem walk1_step {fn : Fn R} {start : Edge} {old new k : Nat} {F N : Nat → N
         exact hp.1 0 (by omega) rfl
       rw [hnn] at hrest
       rcases hrest with ⟨_, hr⟩ | ⟨nxt, hx, _⟩
-      · rw [hr, ← hlast]; exact hW2
+      · rw [hr, ← hlast]; exact ⟨hW2, rfl⟩
       · cases hx
     · right
       refine ⟨by omega, ?_⟩
@@ -557,24 +608,51 @@ theorem walk1_step {fn : Fn R} {start : Edge} {old new k : Nat} {F N : Nat → N
       rcases hrest with ⟨hx, _⟩ | ⟨nxt, hx, hl⟩
       · cases hx
       · cases hx
-        exact ⟨c2, _, _, hW2, by rw [hed]; exact hl⟩
+        exact ⟨c2, hW2, by rw [hed]; exact hl⟩
+
+theorem walk1_step {fn : Fn R} {start : Edge} {old new k : Nat} {F N : Nat → Nat} {c0 c : Cell R} {j fuel : Nat}
+    (hfan : FanF (slots c0) old k F N) (hon : old ≠ new) (hfresh : FreshNode c0 new)
+    (hW : WalkState old new F N (fun m g => SideK (slots c0) g (Edge.keyOf old (N m))) c0 c j) (hj : j < k) {del cre : List Edge} {r : Cell R × List Edge × List Edge}
+    (h : replaceNode.loop fn start old new (fuel + 1) c (EdgeSet.find? c.edges (Edge.keyOf old (N j))) (F j) del cre
+      = .ok r) :
+    (j + 1 = k ∧ WalkState old new F N (fun m g => SideK (slots c0) g (Edge.keyOf old (N m))) c0 r.1 k) ∨
+    (j + 1 < k ∧ ∃ c2 del' cre', WalkState old new F N (fun m g => SideK (slots c0) g (Edge.keyOf old (N m))) c0 c2 (j + 1) ∧
+      replaceNode.loop fn start old new fuel c2 (EdgeSet.find? c2.edges (Edge.keyOf old (N (j + 1)))) (F (j + 1))
+        del' cre' = .ok r) := by
+  obtain ⟨e, stored, _, _, h1 | h2⟩ := walk1_step' hfan hon hfresh hW hj h
+  · exact Or.inl ⟨h1.1, h1.2.1⟩
+  · obtain ⟨hj1, c2, hW2, hl⟩ := h2
+    exact Or.inr ⟨hj1, c2, _, _, hW2, hl⟩
 
 /-- **the first walk**: started at the edge `{old, N 0}` with previous face `F 0`, the loop can only return the state
-    in which all `k` faces of the fan have been renamed and all `k` edges at `old` have been moved -/
-theorem walk1 {fn : Fn R} {start : Edge} {old new k : Nat} {F N : Nat → Nat} {c0 : Cell R}
+    in which all `k` faces of the fan have been renamed and all `k` edges at `old` have been moved; the deleted list
+    receives the `k` edges at `old`, the created list the `k` entries `{new, N m}` -/
+theorem walk1' {fn : Fn R} {start : Edge} {old new k : Nat} {F N : Nat → Nat} {c0 : Cell R}
     (hfan : FanF (slots c0) old k F N) (hon : old ≠ new) (hfresh : FreshNode c0 new) :
     ∀ (fuel j : Nat) (c : Cell R) (del cre : List Edge) (r : Cell R × List Edge × List Edge),
       WalkState old new F N (fun m g => SideK (slots c0) g (Edge.keyOf old (N m))) c0 c j → j < k →
       replaceNode.loop fn start old new fuel c (EdgeSet.find? c.edges (Edge.keyOf old (N j))) (F j) del cre = .ok r →
-      WalkState old new F N (fun m g => SideK (slots c0) g (Edge.keyOf old (N m))) c0 r.1 k := by
+      WalkState old new F N (fun m g => SideK (slots c0) g (Edge.keyOf old (N m))) c0 r.1 k ∧
+      WalkLists old new k N (fun m g => SideK (slots c0) g (Edge.keyOf old (N m))) j del cre r.2.1 r.2.2 := by
   intro fuel
   induction fuel with
   | zero => intro j c del cre r _ _ h; unfold replaceNode.loop at h; cases h
   | succ fuel ih =>
     intro j c del cre r hW hj h
-    rcases walk1_step hfan hon hfresh hW hj h with ⟨_, hr⟩ | ⟨hj1, c2, del', cre', hW2, h2⟩
-    · exact hr
-    · exact ih (j + 1) c2 del' cre' r hW2 hj1 h2
+    obtain ⟨e, stored, he, hs, ⟨hl, hr, hr2⟩ | ⟨hj1, c2, hW2, h2⟩⟩ := walk1_step' hfan hon hfresh hW hj h
+    · refine ⟨hr, ?_⟩
+      rw [hr2]
+      exact WalkLists.last he hs hl
+    · obtain ⟨a, b⟩ := ih (j + 1) c2 _ _ r hW2 hj1 h2
+      exact ⟨a, WalkLists.step he hs hj b⟩
+
+theorem walk1 {fn : Fn R} {start : Edge} {old new k : Nat} {F N : Nat → Nat} {c0 : Cell R}
+    (hfan : FanF (slots c0) old k F N) (hon : old ≠ new) (hfresh : FreshNode c0 new) :
+    ∀ (fuel j : Nat) (c : Cell R) (del cre : List Edge) (r : Cell R × List Edge × List Edge),
+      WalkState old new F N (fun m g => SideK (slots c0) g (Edge.keyOf old (N m))) c0 c j → j < k →
+      replaceNode.loop fn start old new fuel c (EdgeSet.find? c.edges (Edge.keyOf old (N j))) (F j) del cre = .ok r →
+      WalkState old new F N (fun m g => SideK (slots c0) g (Edge.keyOf old (N m))) c0 r.1 k :=
+  fun fuel j c del cre r hW hj h => (walk1' hfan hon hfresh fuel j c del cre r hW hj h).1
 
 /-- **`replace_node`, first walk**: `new` is a node that occurs in no live face (`FreshNode`), the faces around
     `old` form a single fan `F 1 … F k` with neighbours `N 0 … N (k-1)` (`FanF`), the start edge is `{old, N 0}` and
@@ -626,6 +704,27 @@ theorem replaceNode_abs {fn : Fn R} {c c' : Cell R} {start : Edge} {old new k : 
     rw [W.nodes]
   · show old :: c1.freeNodes = _
     rw [W.freeNodes]
+
+/-- the two edge lists returned by the first walk -/
+theorem replaceNode_lists {fn : Fn R} {c c' : Cell R} {start : Edge} {old new k : Nat} {F N : Nat → Nat}
+    {del cre : List Edge} (h : replaceNode fn c start old new = .ok (c', del, cre))
+    (hI : EdgeIdxComplete c) (hfan : FanF (slots c) old k F N) (hk : 0 < k)
+    (hstart : start.f1 = some (F 0)) (hkey : Edge.keyOf start.n1 start.n2 = Edge.keyOf old (N 0))
+    (hon : old ≠ new) (hfresh : FreshNode c new) :
+    (∀ m, m < k → ∃ x ∈ del, x.key = Edge.keyOf old (N m)) ∧
+    (∀ y ∈ cre, ∃ m, m < k ∧ CreOK new N (fun m g => SideK (slots c) g (Edge.keyOf old (N m))) m y) := by
+  unfold replaceNode at h
+  obtain ⟨sf1, hsf, h⟩ := bind_ok h
+  obtain ⟨⟨c1, d1, cr1⟩, h1, h⟩ := bind_ok h
+  cases h
+  have e1 : start.f1 = some sf1 := by opt_ok hsf
+  rw [hstart] at e1; cases e1
+  rw [hkey] at h1
+  obtain ⟨dl, cr, q1, q2, q3, q4⟩ := (walk1' hfan hon hfresh _ 0 c [] [] _ (WalkState.init old new F N _ hI) hk h1).2
+  simp only [List.nil_append] at q1 q2
+  subst q1; subst q2
+  exact ⟨fun m hm => q3 m (Nat.zero_le _) hm, fun y hy => by
+    obtain ⟨m, _, b, c⟩ := q4 y hy; exact ⟨m, b, c⟩⟩
 
 end
 
